@@ -207,13 +207,32 @@ type c16Acc struct {
 	// the slices returned by one earlier Prove, kept as a caller would keep them (no copy)
 	heldRoot []byte
 	heldPs   [][]byte
+	nh       int       // hashers handed out
+	h        hash.Hash // the hasher the current tree was built with (the caller still holds it)
 }
 
+// newHash hands out a hasher; every other one has been used before and still holds input that was never summed (the tree and
+// VerifyProof own the hasher from then on: what it held before is not part of any leaf or node)
 func (a *c16Acc) newHash() hash.Hash {
+	var h hash.Hash
 	if a.hname == "mimc" {
-		return c16mimc.NewMiMC()
+		h = c16mimc.NewMiMC()
+	} else {
+		h = sha256.New()
 	}
-	return sha256.New()
+	a.nh++
+	if a.nh%2 == 0 {
+		a.soil(h)
+	}
+	return h
+}
+
+// soil writes one valid block into h without summing it
+func (a *c16Acc) soil(h hash.Hash) {
+	junk := make([]byte, 32)
+	junk[31] = byte(1 + a.nh%200)
+	junk[30] = 0x5a
+	h.Write(junk)
 }
 
 func c16NewAcc(dir, name, hname string, D [][]byte, seed uint64, tier string) *c16Acc {
@@ -240,7 +259,8 @@ func (a *c16Acc) emit(e Ev) {
 
 func (a *c16Acc) New(base int) {
 	a.sc++
-	a.tree = merkletree.New(a.newHash())
+	a.h = a.newHash()
+	a.tree = merkletree.New(a.h)
 	a.cur, a.pidx = base, -1
 	a.root, a.ps = nil, nil
 	a.emit(Ev{"op": "New", "base": base})
@@ -266,6 +286,9 @@ func (a *c16Acc) Push(data []byte) {
 		arg = a.alloc(arg)
 	}
 	e := Ev{"op": "Push", "data": bytesToInts(data)}
+	if a.h != nil && a.rng.Intn(4) == 0 {
+		a.soil(a.h) // the caller used the hasher in between (FRI shares one hasher between its trees and its transcript)
+	}
 	if m, p := c16try(func() { a.tree.Push(arg) }); p {
 		e["panic"] = m
 	}
